@@ -3,7 +3,7 @@
 spec/jt/JunctionTree.tla (model, exhaustive over labelled graphs x orders x trees x schedules)
 spec/jt/JTTrace.tla      (code -> spec)
 """
-import itertools, random
+import itertools, json, random
 import numpy as np
 from ..core import to_tla
 from .. import trace as T
@@ -102,6 +102,36 @@ def check_jt(ctx, jt, dom_attrs, sizes, cliques_sets, order, maxcl, trees, info)
         ctx.violation("not a valid junction tree: " + "; ".join(bad[:3]), info, {"kind": "structure"})
     elif dev:
         ctx.deviation("JunctionTree differs from JunctionTree.tla: " + "; ".join(dev[:2]), info)
+
+
+def int_mode_job(job):
+    """Randomised restarts (order=int) on cycle-plus-pendant models of 6-8 attributes with many cost ties: validity only."""
+    seed0, count = job
+    import random as _r
+    rng = _r.Random(seed0)
+    out = []
+    for t in range(count):
+        n = rng.choice([6, 7, 8])
+        attrs = list(LETTERS[:n])
+        sizes = [rng.choice([2, 2, 3]) for _ in attrs]
+        k = rng.choice([5, 6])
+        cyc = rng.sample(attrs, k)
+        cl = [(cyc[i], cyc[(i + 1) % k]) for i in range(k)]
+        for a in attrs:
+            if a not in cyc:
+                cl.append((a, rng.choice(cyc)))
+        restarts = rng.choice([5, 20])
+        npseed = seed0 * 100003 + t
+        np.random.seed(npseed % (2 ** 32))
+        try:
+            jt = JunctionTree(Domain(attrs, sizes), cl, restarts)
+            bad = jt_valid(jt, attrs, cl)
+        except Exception as ex:
+            bad = ["raised %r" % ex]
+        if bad:
+            out.append({"domain": attrs, "sizes": sizes, "cliques": cl, "order_mode": "int", "restarts": restarts, "numpy_seed": npseed % (2 ** 32),
+                        "elimination_order": list(getattr(jt, "elimination_order", [])) if "jt" in dir() else None, "bad": bad})
+    return count, out
 
 
 def rand_cliques(rng, n, k, maxlen):
@@ -254,6 +284,16 @@ def run(ctx, canary=False):
             traces.setdefault(n, []).append({"sz": sizes, "cliques": [list(c) for c in cliques],
                                              "mode": "greedy" if mode == "none" else "any",
                                              "events": evs, "info": info})
+    # int mode at scale: rare ties between a partial and a complete order only show on thousands of constructions
+    import multiprocessing
+    per = 6000 if thorough else 1500
+    with multiprocessing.get_context("fork").Pool(16) as pool:
+        outs = pool.map(int_mode_job, [(ctx.seed * 1000 + j, per) for j in range(16)], chunksize=1)
+    ctx.extra["int_mode_constructions"] = sum(c for c, _ in outs)
+    for c, found in outs:
+        for f in found:
+            ctx.case(("intmode", json.dumps(f, sort_keys=True)), nontrivial=True)
+            ctx.violation("not a valid junction tree (order=int): " + "; ".join(f["bad"][:3]), f, {"kind": "structure"})
     if canary:
         traces = canaries(traces)
     nval = 0
